@@ -80,7 +80,31 @@ class IntegerPowPlugin(PrimitiveLeafPlugin):
         if callable(producer) and producer() is not None:
             desired_name = ctx.fresh_name("ipow_out")
 
-        if exponent == -1:
+        if np.issubdtype(target_dtype, np.integer) and 1 <= exponent <= 16:
+            # Integer bases: ONNX Pow accepts int32 / int64 only, and runtimes evaluate it in
+            # floating point (inexact once the power overflows); repeated Mul is valid for every
+            # integer type and wraps exactly like XLA's repeated multiplication.
+            mul_dtype = _dtype_to_ir(target_dtype, ctx.builder.enable_double_precision)
+            mul_shape = tuple(getattr(out_var.aval, "shape", ()))
+            if exponent == 1:
+                result = cast(
+                    ir.Value, ctx.builder.Identity(base_val, _outputs=[desired_name])
+                )
+            else:
+                result = base_val
+                for step in range(exponent - 1):
+                    name = (
+                        desired_name
+                        if step == exponent - 2
+                        else ctx.fresh_name("ipow_mul")
+                    )
+                    result = cast(
+                        ir.Value, ctx.builder.Mul(result, base_val, _outputs=[name])
+                    )
+                    result.type = ir.TensorType(mul_dtype)
+                    _stamp_type_and_shape(result, mul_shape)
+                    _ensure_value_metadata(ctx, result)
+        elif exponent == -1:
             result = cast(
                 ir.Value, ctx.builder.Reciprocal(base_val, _outputs=[desired_name])
             )
